@@ -35,7 +35,66 @@ def prep_synth(work, seed, tier):
 
 
 PREPS = {'synth': prep_synth}
-POSTS = {}
+
+
+def post_c05diff(work, reports, ctx):
+    """Offline checker: the per-case result hashes of the release and the
+    debug-assertion run must be identical, case by case."""
+    import array, re
+    rel = {}
+    dbg = {}
+    for f in glob.glob(os.path.join(work, 's*-*-*.json.c05')):
+        m = re.search(r's\d+-(rel|dbg)-(\d+)\.json\.c05$', f)
+        if m:
+            (rel if m.group(1) == 'rel' else dbg)[int(m.group(2))] = f
+    compared = 0
+    viols = []
+    n_mismatch = 0
+    inconclusive = []
+    if not rel or set(rel) != set(dbg):
+        inconclusive.append('rel/dbg result logs missing or not paired: rel shards %s, dbg shards %s' % (sorted(rel), sorted(dbg)))
+    nshards = len(rel)
+    for sh in sorted(set(rel) & set(dbg)):
+        a = array.array('Q')
+        a.frombytes(open(rel[sh], 'rb').read())
+        b = array.array('Q')
+        b.frombytes(open(dbg[sh], 'rb').read())
+        if len(a) != len(b):
+            inconclusive.append(f'shard {sh}: {len(a)} release results vs {len(b)} debug results')
+            continue
+        compared += len(a)
+        if a == b:
+            continue
+        for i in range(len(a)):
+            if a[i] != b[i]:
+                n_mismatch += 1
+                if len(viols) < 40:
+                    case = f'case|{nshards}|{sh}|{i}'
+                    outs = {}
+                    for fl in ('rel', 'dbg'):
+                        binp = ctx['bins'].get(fl)
+                        p = subprocess.run([binp, 'c05', '--seed', str(ctx['seed']), '--tier', ctx['tier'], '--case', case],
+                                           stdout=subprocess.PIPE, stderr=subprocess.STDOUT, text=True, env=ctx['env'])
+                        lines = [l for l in p.stdout.splitlines() if l.startswith('op ') or l.startswith('RESULT')]
+                        outs[fl] = ' '.join(lines)[:600]
+                    api = 'unknown'
+                    m = re.search(r'api (\S+)', outs.get('rel', ''))
+                    if m:
+                        api = m.group(1)
+                    viols.append({'class': f'release-and-debug-builds-disagree/{api}', 'case': case, 'expected': 'rel: ' + outs.get('rel', ''),
+                                  'got': 'dbg: ' + outs.get('dbg', ''), 'count': 1})
+    # dedupe by class
+    merged = {}
+    for v in viols:
+        if v['class'] in merged:
+            merged[v['class']]['count'] += 1
+        else:
+            merged[v['class']] = v
+    return {'flavour': 'offline', 'evaluations': compared, 'distinct_nontrivial': 0, 'samples': [], 'counters': {'rel_dbg_results_compared': compared, 'rel_dbg_mismatches': n_mismatch},
+            'violations_total': n_mismatch, 'violations': list(merged.values()), 'inconclusive': inconclusive, 'notes': []}
+
+
+POSTS = {'c05diff': post_c05diff}
 
 COMMON_ASSUME = [
     'reference models in /verif/harness/src/{cal,tzref,arith}.rs are the trusted base; cal is cross-checked odometer vs Hinnant over the full range at start-up',
@@ -244,4 +303,21 @@ PROPS['C13'] = dict(
     level_note='Trusted base: the invariant itself is stated in terms of jiff\'s public accessors; tzref.rs corroborates the offset. Sequences are sampled (22^8 orders are not enumerated).',
     technique='invariant monitor at every step of seeded operation sequences (histories); release + debug-assertion builds',
     design_ref='DESIGN.md section 4, C13',
+)
+
+PROPS['C05'] = dict(
+    sub='c05',
+    post=['c05diff'],
+    quick=[S('rel'), S('dbg')],
+    thorough=[S('rel'), S('dbg')],
+    rule='an operation table of 78 entries (~120 distinct public fallible APIs of civil::{Date,Time,DateTime,ISOWeekDate,Weekday}, Timestamp, Zoned, Span, SignedDuration, tz::{Offset,TimeZone,AmbiguousTimestamp,AmbiguousZoned,OffsetConflict} '
+         'and the *With/*Round/*Difference/*Series helpers) executed on seeded limit-biased argument tuples (type MIN/MAX and +-1, zero, sign changes, every Unit, all 9 modes, increments {0,-1,i64::MIN/MAX,divisors,non-divisors}, 18 time zones incl. date-line, sub-minute, POSIX and extreme fixed offsets, instants next to transitions). '
+         'Each case is a pure function of (seed, shard, index) so the release and the debug-assertion build execute the same list; monitors: panic hook (file:line), range predicates on every Ok value (raw getters + re-validation through the checked constructors + Zoned consistency), '
+         'and an offline case-by-case diff of the two builds\' canonical results. distinct_nontrivial = distinct (result, index) of every 7th case',
+    floors={'quick': {'cases': 60000000, 'rel_dbg_results_compared': 30000000, 'ok_results': 10000000, 'err_results': 10000000}, 'thorough': {'cases': 1500000000, 'rel_dbg_results_compared': 750000000}},
+    assumptions=COMMON_ASSUME + ['argument tuples are sampled; the 2^63 input of known finding D9 (C12) is kept out of this table because it is neither a panic, a range nor a build-mode issue'],
+    level_text='Differential and invariant monitoring of every public fallible operation: the same seeded, limit-biased call list runs in a release build and in a debug-assertion build (which arms jiff\'s ranged-integer bound tracking as a domain sanitizer); panics are events with file:line, every Ok value is range-checked, and the two result logs are diffed offline.',
+    level_note='Trusted base: the range predicates (documented limits) and the panic hook. Error *texts* are not compared, only Ok-value/Err-ness.',
+    technique='differential execution release vs debug-assertion build + panic/range monitors over a seeded operation table; offline log diff',
+    design_ref='DESIGN.md section 4, C05',
 )
